@@ -225,7 +225,7 @@ Lemma range_usize_max m d b : Z.of_nat (length d) < 2 ^ 32 ->
     s = o2p d (text_blen d) /\ valid_pos d e.
 Proof.
   intros Hd. destruct (range_wf m d (2 ^ 64 - 1) b Hd ltac:(lia)) as (s & e & H1 & H2 & _ & H4 & H5 & _).
-  exists s, e. repeat split; try assumption.
+  exists s, e. split; [exact H1|]. split; [exact H2|]. split; [|exact H4].
   rewrite H5, <- (o2p_clamp d (2 ^ 64 - 1)), <- (o2p_clamp d (text_blen d)). f_equal.
   pose proof (text_blen_length d). lia.
 Qed.
